@@ -771,6 +771,16 @@ impl<'a> Gen<'a> {
                 add(&format!("cycle-{n}-{pos}"), src, None);
             }
         }
+        // bitcasts (`cast X`, docs/syntax.md) take their type from the context; without one the whole cast expression is
+        // reported (E580): the location is the keyword merged with the operand
+        let s = "fn main() -> i32\n{\n\tvar a: i32 = 17;\n\tvar b: u32 = 17;\n\tvar result: i32 = 0;\n\tif cast &a == cast &b\n\t{\n\t\tresult = 1;\n\t}\n\treturn: result\n}\n".to_string();
+        let start = s.chars().collect::<Vec<_>>().windows(4).position(|w| w == ['c', 'a', 's', 't']).unwrap();
+        add("cast-ambiguous", s, Some(json!({"m": 1, "code": 580, "start": start, "end": start + 7, "line": 6, "crlf": false})));
+        let s = "fn main() -> i32\n{\n\tvar a: i32 = 17;\n\tvar n: u64 = (cast &a) as u64;\n\treturn: n as i32\n}\n".to_string();
+        add("cast-ambiguous-parenthesized", s, None);
+        let s = "fn main()\n{\n\tvar x: i32 = 17;\n\tvar p: &i32 = &x;\n\tvar r: &u32 = cast &p as &i32;\n}\n".to_string();
+        let start = s.chars().collect::<Vec<_>>().windows(4).position(|w| w == ['c', 'a', 's', 't']).unwrap();
+        add("cast-with-hint", s, Some(json!({"m": 1, "code": 504, "start": start, "end": start + 15, "line": 5, "crlf": false})));
         // end of file
         add("eof-open-brace", "fn main()\n{".to_string(), None);
         add("eof-no-newline", "fn main() -> i32\n{\n\treturn: 1 +".to_string(), None);
